@@ -2241,3 +2241,4 @@ def concrete_str_method(it, s, name, args, kwargs, node):
 METHODS[('SCounter', 'items')] = sc_items
 METHODS[('SCounter', 'elements')] = sc_elements
 METHODS[('SCounter', 'get')] = sc_get
+METHODS[('SCounter', 'keys')] = lambda it, c, args, kw, node: SSet(c.seq, 'counter-keys')
